@@ -16,6 +16,7 @@ key `atom a`, nonce encoding `n` and caveat encodings `cs` was given to the atta
 Property theorems only; proofs delegate to Lemmas/Symbolic.lean.
 -/
 import Macaroon.Lemmas.Symbolic
+import Macaroon.Lemmas.BoxOrigin
 import Macaroon.Props.C07
 import Macaroon.Props.C06
 
@@ -484,6 +485,108 @@ theorem unfinalised_wire_tail_rejected (k : Term) (m : Mac Term) (dms : List (Ma
   have := chain_isMac (mac k (encNonceT m.nonce)) (m.cavs.map encT) rfl
   rw [h] at this; cases this
 
+/-! ### 9. attestations, end to end over honest runs (C07) -/
+
+/-- What the verifier's trust in third parties rests on, as conditions on the RUN (not on what the
+attacker presents): the keys it trusts are uncompromised third-party keys; whoever sealed a ticket for
+such a third party kept the discharge key secret (it added the third-party caveat BEFORE handing the
+token out: `Run.add3p` lets `rn` be declared secret exactly then); and such a third party hands out
+its discharges as finalised proofs only. -/
+structure TrustedHonest (Sec : Nat → Prop) (s : St) (tr : Bytes → List Term) : Prop where
+  keys : ∀ loc, ∀ ka ∈ tr loc, ∃ a, ka = atom a ∧ Sec a
+  rn_secret : ∀ ka rn t, (ka, rn, t) ∈ s.tickets → (∃ loc, atom ka ∈ tr loc) → Sec rn
+  finalised_only : ∀ ka rn t, (ka, rn, t) ∈ s.tickets → (∃ loc, atom ka ∈ tr loc) →
+    ∀ m, (rn, m) ∈ s.published → finalised m = true
+
+/-- the box-origin fact over honest runs (Lemmas/BoxOrigin.lean): what a SECRET third-party key opens,
+among everything derivable from the network traffic, is a ticket an issuer of the run sealed for it -/
+theorem run_opened_ticket_is_run_ticket (Sec : Nat → Prop) (Held HeldFin : Nat → Term → List Term → Prop)
+    (s : St) (r : Run Sec Held HeldFin s) (ka : Nat) (hk : Sec ka) (t dk : Term) (cs : List (Cav Term))
+    (hd : Der (· ∈ s.pub) t) (ho : openTicket (atom ka) t = .ok dk cs) :
+    ∃ rn, (ka, rn, t) ∈ s.tickets ∧ dk = atom rn :=
+  Macaroon.Symbolic.run_opened_ticket_is_run_ticket Sec Held HeldFin s r ka hk t dk cs hd ho
+
+/-- the hypothesis `hT` of `attestation_no_forgery` holds in every honest run whose trusted third
+parties are honest (`TrustedHonest`), for every discharge whose key-id the attacker can derive -/
+theorem run_discharges_hT (Sec : Nat → Prop) (s : St)
+    (r : Run Sec (HeldOf s.published) (HeldFinOf s.published) s) (tr : Bytes → List Term)
+    (hT : TrustedHonest Sec s tr) (d : Mac Term) (hkid : Der (· ∈ s.pub) d.nonce.kid) :
+    ∀ ka ∈ tr d.loc, ∀ dk cs', openTicket ka d.nonce.kid = .ok dk cs' →
+      ∃ rn, dk = atom rn ∧ Sec rn ∧ ∀ cs₁, ¬ HeldOf s.published rn (encNonceT d.nonce) cs₁ := by
+  intro ka hka dk cs' ho
+  obtain ⟨a, rfl, hsa⟩ := hT.keys _ ka hka
+  obtain ⟨rn, hmem, rfl⟩ := run_opened_ticket_is_run_ticket Sec _ _ s r a hsa _ _ _ hkid ho
+  refine ⟨rn, rfl, hT.rn_secret a rn _ hmem ⟨_, hka⟩, ?_⟩
+  rintro cs₁ ⟨m, hm, hf, _, _⟩
+  rw [hT.finalised_only a rn _ hmem ⟨_, hka⟩ m hm] at hf
+  cases hf
+
+/-- C07 `run_attestation_provenance`: provenance over honest runs, for ANY presented token (proof or not).
+An attestation obtainable from an accepted presentation assembled from the network traffic sits
+either at top level of the presented token itself, which is then a proof signed with the verifier's own
+key `k` (what such a proof can be is `run_no_forgery_closed`), or at top level of a presented proof
+`d` whose key-id is a ticket that an issuer of the run sealed for a third party the verifier trusts
+for `d`'s location, `d` being — nonce and whole caveat sequence — a token that third party finalised
+and published under that ticket's discharge key. -/
+theorem run_attestation_provenance (Sec : Nat → Prop) (s : St)
+    (r : Run Sec (HeldOf s.published) (HeldFinOf s.published) s)
+    (k : Term) (m : Mac Term) (dms : List (Mac Term)) (tr : Bytes → List Term) (cs : List (Cav Term))
+    (hv : verify k m dms tr = .ok cs)
+    (hd : ∀ d ∈ dms, Der (· ∈ s.pub) d.tail ∧ Der (· ∈ s.pub) d.nonce.kid)
+    (hT : TrustedHonest Sec s tr)
+    (a : Cav Term) (ha : a ∈ C07.obtainable cs) :
+    a.isAttestation = true ∧
+    ((m.nonce.proof = true ∧ a ∈ m.cavs) ∨
+     ∃ d ∈ dms, d.nonce.proof = true ∧ a ∈ d.cavs ∧
+      ∃ ka rn h, atom ka ∈ tr d.loc ∧ Sec ka ∧ (ka, rn, d.nonce.kid) ∈ s.tickets ∧ Sec rn ∧
+        (rn, h) ∈ s.published ∧ finalised h = true ∧ h.nonce = d.nonce ∧ h.cavs = d.cavs) := by
+  obtain ⟨hatt, hcase⟩ := C07.attestation_source k m dms tr cs hv a ha
+  refine ⟨hatt, ?_⟩
+  rcases hcase with hp | ⟨p, hp, d, hdp, hpr, had, htr, r', hvf, _⟩
+  · exact Or.inl hp
+  · right
+    obtain ⟨_, _, ticket, _, hb⟩ := Lemmas.mem_pendOf dms _ _ p hp
+    have hin : d ∈ dms := ((Lemmas.mem_byTicket dms ticket p.ds hb).2 d hdp).1
+    obtain ⟨ka, hka, dk, cs', hopen, hct⟩ := (C07.trust_needs_matching_ticket (tr d.loc) d.nonce.kid p.key).1 htr
+    obtain ⟨a', rfl, hsa⟩ := hT.keys _ ka hka
+    obtain ⟨rn, hmem, rfl⟩ := run_opened_ticket_is_run_ticket Sec _ _ s r a' hsa _ _ _ (hd d hin).2 hopen
+    have hsrn : Sec rn := hT.rn_secret a' rn _ hmem ⟨_, hka⟩
+    have hkey : p.key = atom rn := (LawfulCrypto.ctEq_iff p.key (atom rn)).mp hct
+    rw [hkey] at hvf
+    refine ⟨d, hin, hpr, had, a', rn, ?_⟩
+    rcases discharge_no_forgery Sec _ _ (· ∈ s.pub) (honest_history_safe Sec _ _ s r) rn hsrn d _ _ _
+        (hd d hin).1 hvf with ⟨cs₀, ⟨h, hm, hf, _, _⟩, _⟩ | ⟨_, ⟨h, hm, hf, hn, hc⟩⟩
+    · rw [hT.finalised_only a' rn _ hmem ⟨_, hka⟩ h hm] at hf
+      cases hf
+    · exact ⟨h, hka, hsa, hmem, hsrn, hm, hf, (encNonceT_injective hn).symm, (map_encT_injective hc).symm⟩
+
+/-- C07 `run_attestation_no_forgery`: the end-to-end statement over honest runs only.  In every honest
+run (`Run`, the declared sets read off the run) whose trusted third parties are honest
+(`TrustedHonest`), let a PERMISSION token be accepted under ANY key with discharges assembled from
+the network traffic (tails and key-ids derivable from what was published) and let an attestation
+be obtainable from the result by typed lookup.  Then it sits at top level of a presented proof `d`
+whose key-id is a ticket that an issuer of the run sealed for a third party the verifier trusts for
+`d`'s location, and `d` — nonce and whole caveat sequence, nothing appended, nothing wrapped — is a
+token that third party finalised and published under that ticket's discharge key.  Copied tickets,
+spoofed locations, own third-party caveats under own keys, hand-extended proofs: none yields an
+attestation the trusted party did not place. -/
+theorem run_attestation_no_forgery (Sec : Nat → Prop) (s : St)
+    (r : Run Sec (HeldOf s.published) (HeldFinOf s.published) s)
+    (k : Term) (m : Mac Term) (dms : List (Mac Term)) (tr : Bytes → List Term) (cs : List (Cav Term))
+    (hv : verify k m dms tr = .ok cs) (hmp : m.nonce.proof = false)
+    (hd : ∀ d ∈ dms, Der (· ∈ s.pub) d.tail ∧ Der (· ∈ s.pub) d.nonce.kid)
+    (hT : TrustedHonest Sec s tr)
+    (a : Cav Term) (ha : a ∈ C07.obtainable cs) :
+    a.isAttestation = true ∧
+    ∃ d ∈ dms, d.nonce.proof = true ∧ a ∈ d.cavs ∧
+      ∃ ka rn h, atom ka ∈ tr d.loc ∧ Sec ka ∧ (ka, rn, d.nonce.kid) ∈ s.tickets ∧ Sec rn ∧
+        (rn, h) ∈ s.published ∧ finalised h = true ∧ h.nonce = d.nonce ∧ h.cavs = d.cavs := by
+  obtain ⟨hatt, h⟩ := run_attestation_provenance Sec s r k m dms tr cs hv hd hT a ha
+  refine ⟨hatt, ?_⟩
+  rcases h with ⟨hp, _⟩ | h
+  · rw [hmp] at hp; cases hp
+  · exact h
+
 /-! ### executable sanity and non-vacuity
 
 The token logic runs on terms; the examples are checked by the kernel (`rfl`/`decide`). -/
@@ -697,6 +800,84 @@ example : ∃ d ∈ [exDA], d.nonce.proof = true ∧ Cav.flyioUserID 7 ∈ d.cav
       exact ⟨11, this, Or.inr (Or.inr rfl), fun _ h => h⟩)
     (.flyioUserID 7) (by decide)).2
 
+/-! C07 end to end over a run: the running example continued — the third party adds the identity to its
+discharge, finalises and publishes it; the declared sets are read off the run; the verifier trusts
+`atom 5` for the third party's location. -/
+
+/-- the discharge with the identity, before finalisation -/
+def exDAu : Mac Term := (add ex3D [.plain (.flyioUserID 7)]).1
+def ex4S : St :=
+  ⟨15, [(11, exDA), (11, exDAu), (11, ex3D), (0, ex3M1), (0, ex3M0)], [(5, 11, ex3Ticket)],
+    tokT exDA ++ (tokT ex3M1 ++ []), [(11, exDA), (0, ex3M1)], [ex3D.nonce, ex3M0.nonce]⟩
+
+theorem ex4Run : Run ex3Sec (HeldOf ex4S.published) (HeldFinOf ex4S.published) ex4S := by
+  have r0 := Run.init (Sec := ex3Sec) (Held := HeldOf ex4S.published) (HeldFin := HeldFinOf ex4S.published) 10
+  have r1 := Run.mint 0 (lit [1]) [] false r0 (.lit _) (by simp [ex3Sec])
+  have r2 := Run.add3p 0 ex3M0 5 [9] [.isUser 3] r1 (by simp [ex3M0])
+    (Der.pair (.skel _) (.lit _)) (by simp [ex3Sec]) (by simp [ex3Sec])
+    (fun _ => ⟨Or.inr (Or.inl rfl), Or.inl rfl, by decide, by
+      rintro ⟨cs0, ⟨m, hm, hf, hn, rfl⟩, hp⟩
+      simp only [ex4S, List.mem_cons, Prod.mk.injEq, List.not_mem_nil, or_false] at hm
+      rcases hm with ⟨h, _⟩ | ⟨_, rfl⟩
+      · cases h
+      · revert hp; decide⟩)
+  have r3 := Run.discharge 5 11 ex3Ticket [9] true [.isUser 3] ex3D r2 (by simp [ex3Ticket]) (by simp [ex3Sec]) (by rfl)
+  have r3a := Run.addPlain 11 ex3D (.flyioUserID 7) r3 (by simp) (Der.pair (.skel _) (.lit _))
+  have r4 := Run.encode 11 exDAu r3a (by simp [exDAu])
+  have r5 := Run.publish 0 ex3M1 r4 (by simp [ex3M1, ex3M0]) (fun _ => by
+    rw [if_neg (by decide)]
+    exact ⟨ex3M1, by simp [ex4S], by decide, rfl, rfl⟩)
+  have r6 := Run.publish 11 exDA r5 (by simp [exDA, exDAu]) (fun _ => by
+    rw [if_pos (by decide)]
+    exact ⟨exDA, by simp [ex4S], by decide, rfl, rfl⟩)
+  exact r6
+
+/-- the third party of the run is honest in the sense of `TrustedHonest` -/
+theorem ex4Trusted : TrustedHonest ex3Sec ex4S exTrust := by
+  refine ⟨?_, ?_, ?_⟩
+  · intro loc ka hka
+    by_cases hl : loc = [9]
+    · simp only [exTrust, hl, ↓reduceIte, List.mem_singleton] at hka
+      exact ⟨5, hka, Or.inr (Or.inl rfl)⟩
+    · simp [exTrust, hl] at hka
+  · intro ka rn t hm _
+    simp only [ex4S, List.mem_singleton, Prod.mk.injEq] at hm
+    exact Or.inr (Or.inr hm.2.1)
+  · intro ka rn t hm _ m hp
+    simp only [ex4S, List.mem_singleton, Prod.mk.injEq] at hm
+    obtain ⟨_, rfl, _⟩ := hm
+    simp only [ex4S, List.mem_cons, Prod.mk.injEq, List.not_mem_nil, or_false] at hp
+    rcases hp with ⟨_, rfl⟩ | ⟨h, _⟩
+    · decide
+    · cases h
+
+/-- non-vacuity of `run_attestation_no_forgery` (and with it of `run_discharges_hT`,
+`run_opened_ticket_is_run_ticket`, the box-origin invariant): every hypothesis holds for the run, the
+identity is obtainable, and the conclusion names the run's ticket and the published proof -/
+example : ∃ d ∈ [exDA], d.nonce.proof = true ∧ Cav.flyioUserID 7 ∈ d.cavs ∧
+      ∃ ka rn h, atom ka ∈ exTrust d.loc ∧ ex3Sec ka ∧ (ka, rn, d.nonce.kid) ∈ ex4S.tickets ∧ ex3Sec rn ∧
+        (rn, h) ∈ ex4S.published ∧ finalised h = true ∧ h.nonce = d.nonce ∧ h.cavs = d.cavs :=
+  (run_attestation_no_forgery ex3Sec ex4S ex4Run (atom 0) ex3M1 [exDA] exTrust [.flyioUserID 7] (by rfl) (by rfl)
+    (by
+      intro d hd
+      simp only [List.mem_singleton] at hd; subst hd
+      exact ⟨.held (by decide), .held (by decide)⟩)
+    ex4Trusted (.flyioUserID 7) (by decide)).2
+example := run_discharges_hT ex3Sec ex4S ex4Run exTrust ex4Trusted exDA (.held (by decide))
+example := run_attestation_provenance ex3Sec ex4S ex4Run (atom 0) ex3M1 [exDA] exTrust [.flyioUserID 7] (by rfl)
+  (by
+    intro d hd
+    simp only [List.mem_singleton] at hd; subst hd
+    exact ⟨.held (by decide), .held (by decide)⟩)
+  ex4Trusted (.flyioUserID 7) (by decide)
+example : ∃ rn, (5, rn, ex3Ticket) ∈ ex4S.tickets ∧ atom 11 = atom rn :=
+  run_opened_ticket_is_run_ticket ex3Sec _ _ ex4S ex4Run 5 (Or.inr (Or.inl rfl)) ex3Ticket (atom 11) [.isUser 3]
+    (.held (by decide)) (by rfl)
+-- the forged discharge of `exForged` style — minted by the attacker under a key he knows, carrying a copied
+-- ticket as key-id — yields nothing: the trust loop refuses it (key mismatch)
+example : verify (atom 0) ex3M1 [encodeState (add (mint (atom 99) ex3Ticket [9] (atom 98) true) [.plain (.flyioUserID 666)]).1]
+    exTrust = .error .dischargeFailed := by rfl
+
 /-! the direct forms of section 8 -/
 
 example := tail_determines_token 0 ex3M1 { ex3M1 with loc := [7] } [ex3DF] [ex3DF] [] [] true true (fun _ => []) (fun _ => [])
@@ -752,7 +933,15 @@ end examples
 #print axioms bound_accepted_only_with_descendant
 #print axioms unfinalised_wire_tail_rejected
 #print axioms ex3_pend
+#print axioms run_opened_ticket_is_run_ticket
+#print axioms run_discharges_hT
+#print axioms run_attestation_provenance
+#print axioms run_attestation_no_forgery
+#print axioms Macaroon.Symbolic.der_boxOrigin
+#print axioms Macaroon.Symbolic.run_binv
 #print axioms ex3Run
+#print axioms ex4Run
+#print axioms ex4Trusted
 #print axioms ex_rn_leaks
 #print axioms ex_forged_derivable
 #print axioms ex_forged_accepted
